@@ -41,21 +41,43 @@ def check(ctx: Ctx) -> None:
     ctx.floors["C11.R5"] = ctx.floors.pop("C04.R3")
 
 
-def field_keys_read(f: FunctionInfo, loop_over_suffix: str = ".fields") -> Set[str]:
-    """String keys read from the loop variable iterating <schema>.fields in f."""
+def _keys_of_var(ctx: Ctx, f: FunctionInfo, scope: ast.AST, v: str, depth: int = 0) -> Set[str]:
+    """String keys read from dict variable `v` inside `scope` of f, following `v` into package callees it is passed to."""
+    keys: Set[str] = set()
+    for m in ast.walk(scope):
+        if isinstance(m, ast.Call) and isinstance(m.func, ast.Attribute) and m.func.attr == "get" \
+                and isinstance(m.func.value, ast.Name) and m.func.value.id == v and m.args \
+                and isinstance(m.args[0], ast.Constant):
+            keys.add(str(m.args[0].value))
+        if isinstance(m, ast.Subscript) and isinstance(m.value, ast.Name) and m.value.id == v \
+                and isinstance(m.slice, ast.Constant):
+            keys.add(str(m.slice.value))
+        if isinstance(m, ast.Call) and depth < 3 and any(isinstance(a, ast.Name) and a.id == v for a in list(m.args) + [k.value for k in m.keywords]):
+            c = ctx.prog.resolve_call(m, f)
+            if c.kind == "func":
+                for t in c.funcs:
+                    is_method = isinstance(m.func, ast.Attribute)
+                    for p in t.params:
+                        a = ctx.eff.bind_arg(m, t, p.name, is_method)
+                        if isinstance(a, ast.Name) and a.id == v:
+                            keys |= _keys_of_var(ctx, t, t.node, p.name, depth + 1)
+    return keys
+
+
+def field_keys_read(ctx: Ctx, f: FunctionInfo, loop_over_suffix: str = ".fields", depth: int = 0) -> Set[str]:
+    """String keys read from the loop variable iterating <schema>.fields in f (and in helpers introduced after the
+    rules were written, which count as part of f)."""
     keys: Set[str] = set()
     for n in ast.walk(f.node):
         if isinstance(n, (ast.For, ast.comprehension)) and norm_text(n.iter).endswith(loop_over_suffix) and isinstance(n.target, ast.Name):
-            v = n.target.id
             scope = n if isinstance(n, ast.For) else f.node
-            for m in ast.walk(scope):
-                if isinstance(m, ast.Call) and isinstance(m.func, ast.Attribute) and m.func.attr == "get" \
-                        and isinstance(m.func.value, ast.Name) and m.func.value.id == v and m.args \
-                        and isinstance(m.args[0], ast.Constant):
-                    keys.add(str(m.args[0].value))
-                if isinstance(m, ast.Subscript) and isinstance(m.value, ast.Name) and m.value.id == v \
-                        and isinstance(m.slice, ast.Constant):
-                    keys.add(str(m.slice.value))
+            keys |= _keys_of_var(ctx, f, scope, n.target.id)
+        if isinstance(n, ast.Call) and depth < 3:
+            c = ctx.prog.resolve_call(n, f)
+            if c.kind == "func":
+                for t in c.funcs:
+                    if not ctx.prog.is_known(t) and t is not f:
+                        keys |= field_keys_read(ctx, t, loop_over_suffix, depth + 1)
     return keys
 
 
@@ -63,7 +85,7 @@ def r1(ctx: Ctx) -> None:
     ctx.rule("C11.R1", "validation covers what is consumed: keys read by the Arrow-schema builder and the bounds writer/reader are "
              "subset of the keys in the schema signature, and the signature is ordered", 3)
     sig = ctx.fn(TX + "._schema_signature")
-    validated = field_keys_read(sig)
+    validated = field_keys_read(ctx, sig)
     consumers = {
         "create_arrow_schema (what is written)": ctx.fn(DFM + ".create_arrow_schema"),
         "_compute_column_bounds (bounds keyed by id)": ctx.fn(DFM + "._compute_column_bounds"),
@@ -72,7 +94,7 @@ def r1(ctx: Ctx) -> None:
     if not validated:
         raise AnalysisError("_schema_signature reads no field keys - anchor changed")
     for role, f in consumers.items():
-        consumed = field_keys_read(f)
+        consumed = field_keys_read(ctx, f)
         if not consumed:
             raise AnalysisError(f"{f.qname} reads no field keys - anchor changed")
         missing = sorted(consumed - validated)
@@ -101,7 +123,14 @@ def r1(ctx: Ctx) -> None:
     # the validator compares the two signatures for equality and raises
     val = ctx.fn(TX + "._validate_schema_against_table")
     vg = ctx.cfg(val)
-    brs = [b for b in vg.nodes if b.kind == "branch" and isinstance(b.ast, ast.Compare) and "_schema_signature" in b.text]
+    vsl = ctx.slicer(val)
+
+    def _is_sig(e: ast.AST, at: int) -> bool:
+        return any(isinstance(c, ast.Call) and (dotted(c.func) or "").endswith("_schema_signature") for c in vsl.origins(e, at)["calls"])
+
+    brs = [b for b in vg.nodes if b.kind == "branch" and isinstance(b.ast, ast.Compare) and len(b.ast.ops) == 1
+           and isinstance(b.ast.ops[0], (ast.Eq, ast.NotEq)) and b.id in vg.reachable()
+           and _is_sig(b.ast.left, b.id) and _is_sig(b.ast.comparators[0], b.id)]
     ok = False
     for b in brs:
         ne = isinstance(b.ast.ops[0], ast.NotEq)  # type: ignore[union-attr]
@@ -187,7 +216,16 @@ def r3(ctx: Ctx) -> None:
     if not subs:
         ctx.ob("C11.R3", f, "no cache", None, True, "create_arrow_schema does not cache", nontrivial=False)
         return
-    keys = {norm_text(s.slice) for s in subs} | {norm_text(i.left) for i in ins}
+    def _key_text(e: ast.AST) -> str:
+        # a local key variable with a single definition stands for that definition
+        if isinstance(e, ast.Name):
+            defs = [n.value for n in ast.walk(f.node) if isinstance(n, ast.Assign) and len(n.targets) == 1
+                    and isinstance(n.targets[0], ast.Name) and n.targets[0].id == e.id]
+            if len(defs) == 1:
+                return norm_text(defs[0])
+        return norm_text(e)
+
+    keys = {_key_text(s.slice) for s in subs} | {_key_text(i.left) for i in ins}
     g = ctx.cfg(f)
     sl = ctx.slicer(f)
     determines = True
